@@ -94,15 +94,18 @@ func decToMinDec(dec float64, latitude bool) string {
 		sign = ' '
 	}
 
-	deg := int(dec)
-	min := (dec - float64(deg)) * 60.0
+	// Round once, to ten-thousandths of a minute, and split using integer
+	// arithmetic. Rounding degrees and minutes separately could yield 60.0000
+	// minutes (e.g. 0.9999999999 => "00-60.0000N").
+	t := int64(math.Round(math.Abs(dec) * 600000))
+	deg, min := t/600000, t%600000
 
 	var format string
 	if latitude {
-		format = "%02.0f-%07.4f%c"
+		format = "%02d-%02d.%04d%c"
 	} else {
-		format = "%03.0f-%07.4f%c"
+		format = "%03d-%02d.%04d%c"
 	}
 
-	return fmt.Sprintf(format, math.Abs(float64(deg)), math.Abs(min), sign)
+	return fmt.Sprintf(format, deg, min/10000, min%10000, sign)
 }
